@@ -917,6 +917,9 @@ func (g *egen) block(depth int, inLoop bool, top bool) *RBlock {
 	}
 	for i := 0; i < n; i++ {
 		b.Stmts = append(b.Stmts, g.stmt(depth, inLoop))
+		if r.chance(1, 8) {
+			b.Stmts = append(b.Stmts, g.saveRestore()...)
+		}
 	}
 	if top {
 		if r.chance(3, 4) {
@@ -932,6 +935,49 @@ func (g *egen) block(depth int, inLoop bool, top bool) *RBlock {
 		}
 	}
 	return b
+}
+
+// saveRestore: a local saves an injected field (of any kind) or slice element, the source is
+// overwritten, then the saved value is written back - the local must hold the value it was
+// assigned, not follow its source.
+func (g *egen) saveRestore() []*RS {
+	r := g.r
+	name := localNames[r.intn(len(localNames))]
+	var mk func() *RE // a fresh node per use: the writer records a position in every node
+	var cls string
+	if r.chance(3, 4) {
+		f := hostFields[r.intn(len(hostFields))]
+		mk = func() *RE { return &RE{Op: "var", Sym: "S." + f} }
+		cls = classOfKind(fieldKind(f))
+	} else {
+		switch r.intn(3) {
+		case 0:
+			k := strconv.Itoa(r.intn(3))
+			mk, cls = func() *RE { return &RE{Op: "idx", Sym: "A", Key: &RKey{"int", k}} }, "sint"
+		case 1:
+			k := strconv.Itoa(r.intn(2))
+			mk, cls = func() *RE { return &RE{Op: "idx", Sym: "AU", Key: &RKey{"int", k}} }, "uint"
+		default:
+			mk, cls = func() *RE { return &RE{Op: "idx", Sym: "MF", Key: &RKey{"int", "1"}} }, "flt"
+		}
+	}
+	var change *RS
+	switch cls {
+	case "str":
+		change = &RS{Op: "assign", Sym: "=", Tgt: mk(), E: g.strAtom()}
+	case "bool":
+		change = &RS{Op: "assign", Sym: "=", Tgt: mk(), E: g.boolAtom()}
+	case "flt":
+		change = &RS{Op: "assign", Sym: []string{"+=", "*=", "="}[r.intn(3)], Tgt: mk(), E: lit("float64", strconv.FormatUint(mathFloat64bits(2.0), 10))}
+	default:
+		change = &RS{Op: "assign", Sym: []string{"+=", "*=", "="}[r.intn(3)], Tgt: mk(), E: lit("int64", "3")}
+	}
+	g.locals[name] = cls
+	return []*RS{
+		{Op: "assign", Sym: "=", Tgt: &RE{Op: "var", Sym: name}, E: mk()},
+		change,
+		{Op: "assign", Sym: "=", Tgt: mk(), E: &RE{Op: "var", Sym: name}},
+	}
 }
 
 func (g *egen) stmt(depth int, inLoop bool) *RS {
@@ -1026,6 +1072,23 @@ func (g *egen) stmt(depth int, inLoop bool) *RS {
 			}
 			// usually guarded
 			if r.chance(3, 4) {
+				if r.chance(1, 3) {
+					// ... by a later branch of an if / else-if / else chain: the signal has to travel
+					// out of that branch exactly as out of the first one
+					other := "continue"
+					if op == "continue" {
+						other = "break"
+					}
+					s := &RS{Op: "if", E: g.boolExpr(1), Body: &RBlock{Stmts: []*RS{g.assignStmt(1)}}}
+					s.Elifs = append(s.Elifs, RElif{Cond: g.boolExpr(1), Body: &RBlock{Stmts: []*RS{g.assignStmt(1), {Op: op}}}})
+					if r.chance(1, 2) {
+						s.Elifs = append(s.Elifs, RElif{Cond: g.boolExpr(1), Body: &RBlock{Stmts: []*RS{{Op: other}}}})
+					}
+					if r.chance(1, 2) {
+						s.Else = &RBlock{Stmts: []*RS{{Op: []string{op, other}[r.intn(2)]}}}
+					}
+					return s
+				}
 				return &RS{Op: "if", E: g.boolExpr(1), Body: &RBlock{Stmts: []*RS{{Op: op}}}}
 			}
 			return &RS{Op: op}
@@ -1130,6 +1193,23 @@ func (g *egen) concStmt() *RS {
 			if k == pass {
 				items = append(items, it)
 			}
+		}
+	}
+	if r.chance(1, 8) {
+		// a block made of children of one kind only (the other three launchers have nothing to start)
+		only := []string{"three", "method", "func", "assign"}[r.intn(4)]
+		var one []*RS
+		for _, it := range items {
+			k := it.Op
+			if k == "call" {
+				k = it.E.Kind
+			}
+			if k == only {
+				one = append(one, it)
+			}
+		}
+		if len(one) > 0 {
+			items = one
 		}
 	}
 	return &RS{Op: "conc", Items: items}
